@@ -20,16 +20,21 @@ pub struct PacketConn<RW: Read + Write> {
     // write variables
     to_write: Vec<u8>,
     seq: u8,
+    // the previous packet of the current message was maximal (0xFFFFFF bytes)
+    continued: bool,
 }
 
 impl<W: Read + Write> Write for PacketConn<W> {
     fn write(&mut self, buf: &[u8]) -> io::Result<usize> {
         use std::cmp::min;
-        let left = min(buf.len(), U24_MAX - self.to_write.len());
+        // to_write starts with the 4-byte header, which does not count towards the payload limit
+        let left = min(buf.len(), U24_MAX + 4 - self.to_write.len());
         self.to_write.extend(&buf[..left]);
 
-        if self.to_write.len() == U24_MAX {
-            self.end_packet()?;
+        if self.to_write.len() == U24_MAX + 4 {
+            self.write_packet()?;
+            // a maximal packet must be followed by another (possibly empty) one
+            self.continued = true;
         }
         Ok(left)
     }
@@ -52,21 +57,29 @@ impl<RW: Read + Write> PacketConn<RW> {
 
             to_write: vec![0, 0, 0, 0],
             seq: 0,
+            continued: false,
             rw,
         }
     }
 }
 
 impl<W: Read + Write> PacketConn<W> {
+    fn write_packet(&mut self) -> io::Result<()> {
+        let len = self.to_write.len() - 4;
+        LittleEndian::write_u24(&mut self.to_write[0..3], len as u32);
+        self.to_write[3] = self.seq;
+        self.seq = self.seq.wrapping_add(1);
+
+        self.rw.write_all(&self.to_write[..])?;
+        self.to_write.truncate(4); // back to just header
+        Ok(())
+    }
+
     fn maybe_end_packet(&mut self) -> io::Result<()> {
         let len = self.to_write.len() - 4;
-        if len != 0 {
-            LittleEndian::write_u24(&mut self.to_write[0..3], len as u32);
-            self.to_write[3] = self.seq;
-            self.seq = self.seq.wrapping_add(1);
-
-            self.rw.write_all(&self.to_write[..])?;
-            self.to_write.truncate(4); // back to just header
+        if len != 0 || self.continued {
+            self.continued = false;
+            self.write_packet()?;
         }
         Ok(())
     }
